@@ -141,3 +141,7 @@ def extra_leave_rule(ck, P, R="ATOM/extra-leave"):
                   "the Extra arm of dispatch can leave the call on a condition other than `length != 0` (bytes of the field still "
                   "missing): a gzip member whose extra field has length 0, or ends with the input, is never decoded", where(d, c.line))
     ck.floor(R, n, 1)
+
+# session 5 (round 11)
+EXPLANATION = EXPLANATION + " " + (
+    'ATOM/extra-leave (round 11): every leave of the Extra arm of dispatch is decided by `length != 0` alone, so an extra field of length 0 is passed over.')
